@@ -73,7 +73,7 @@ impl Ctx {
         j % self.nshards == self.shard_idx
     }
 
-    fn absorb(&mut self, tr: &Trace, decoder: &'static str, codec: usize, origin: &str, input: &[u8], cuts: &[usize]) {
+    fn absorb(&mut self, tr: &Trace, decoder: &'static str, codec: usize, origin: &dyn Fn() -> String, input: &[u8], cuts: &[usize]) {
         for c in &tr.counters {
             self.rep.count(c);
         }
@@ -82,9 +82,9 @@ impl Ctx {
         }
     }
 
-    fn record(&mut self, f: &Finding, decoder: &'static str, codec: usize, origin: &str, input: &[u8], cuts: &[usize]) {
+    fn record(&mut self, f: &Finding, decoder: &'static str, codec: usize, origin: &dyn Fn() -> String, input: &[u8], cuts: &[usize]) {
         let e = self.agg.entry(f.sig.clone()).or_insert_with(|| {
-            eprintln!("[C03] first hit signature={} ({})", f.sig, origin);
+            eprintln!("[C03] first hit signature={} ({})", f.sig, origin());
             Entry {
                 what: f.what.clone(),
                 count: 0,
@@ -92,7 +92,7 @@ impl Ctx {
                 codec,
                 at_buffer: f.at_buffer.clone(),
                 detail: f.detail.clone(),
-                origin: origin.to_string(),
+                origin: origin(),
                 original_input: input.to_vec(),
                 cuts: cuts.to_vec(),
             }
@@ -104,7 +104,7 @@ impl Ctx {
             e.codec = codec;
             e.at_buffer = f.at_buffer.clone();
             e.detail = f.detail.clone();
-            e.origin = origin.to_string();
+            e.origin = origin();
             e.original_input = input.to_vec();
             e.cuts = cuts.to_vec();
         }
@@ -120,37 +120,35 @@ impl Ctx {
 
     /// One input under one codec: whole delivery + the given fragmentations,
     /// every clause evaluated on each delivery, fragment-independence across them.
-    fn judge_bgp(&mut self, input: &[u8], codec: usize, origin: &str, frags: &[Vec<usize>]) {
+    fn judge_bgp(&mut self, input: &[u8], codec: usize, origin: &dyn Fn() -> String, frags: &[Vec<usize>]) {
         self.beat(input);
         let is_ebgp = fnv64(input) & 1 == 0;
-        let spec = self.corpus.specs[codec].clone();
-        let whole = drive::run_bgp(&spec, &mut self.codecs[codec], input, &[], is_ebgp);
+        let max_len = self.corpus.specs[codec].max_len();
+        let whole = drive::run_bgp(max_len, &mut self.codecs[codec], input, &[], is_ebgp);
         self.after_bgp(&whole, input, codec, origin, &[]);
         for cuts in frags {
             if cuts.is_empty() {
                 continue;
             }
-            let fr = drive::run_bgp(&spec, &mut self.codecs[codec], input, cuts, is_ebgp);
+            let fr = drive::run_bgp(max_len, &mut self.codecs[codec], input, cuts, is_ebgp);
             self.after_bgp(&fr, input, codec, origin, cuts);
             self.rep.count("delivery:fragmented");
             self.compare(&whole, &fr, "bgp", codec, origin, input, cuts);
         }
     }
 
-    fn after_bgp(&mut self, tr: &Trace, input: &[u8], codec: usize, origin: &str, cuts: &[usize]) {
+    fn after_bgp(&mut self, tr: &Trace, input: &[u8], codec: usize, origin: &dyn Fn() -> String, cuts: &[usize]) {
         self.rep.eval();
         self.absorb(tr, "bgp", codec, origin, input, cuts);
         for f in &tr.fams {
-            self.rep.count(&format!("decoded-nlri:{}", seeds::fam_name(*f)));
+            self.rep.count(seeds::fam_counter(*f));
         }
         if tr.findings.iter().any(|f| f.sig.starts_with("C03/panic/")) {
             // never reuse a codec object a panic unwound through
             self.codecs[codec] = self.corpus.specs[codec].build();
         }
         if tr.deep {
-            let mut key = input.to_vec();
-            key.extend_from_slice(self.corpus.specs[codec].name.as_bytes());
-            self.rep.nontrivial(fnv64(&key));
+            self.rep.nontrivial(fnv64(input) ^ mix(codec as u64 + 1));
             self.rep.count("nontrivial:bgp");
         }
         match &tr.term {
@@ -160,7 +158,7 @@ impl Ctx {
         }
     }
 
-    fn compare(&mut self, whole: &Trace, fr: &Trace, decoder: &'static str, codec: usize, origin: &str, input: &[u8], cuts: &[usize]) {
+    fn compare(&mut self, whole: &Trace, fr: &Trace, decoder: &'static str, codec: usize, origin: &dyn Fn() -> String, input: &[u8], cuts: &[usize]) {
         if !whole.findings.is_empty() || !fr.findings.is_empty() {
             self.rep.count("fragcmp:skipped-other-finding");
             return;
@@ -184,7 +182,7 @@ impl Ctx {
         }
     }
 
-    fn judge_rtr(&mut self, input: &[u8], origin: &str, frags: &[Vec<usize>]) {
+    fn judge_rtr(&mut self, input: &[u8], origin: &dyn Fn() -> String, frags: &[Vec<usize>]) {
         self.beat(input);
         let whole = drive::run_rtr(input, &[]);
         self.after_simple(&whole, "rtr", input, origin, &[]);
@@ -199,19 +197,17 @@ impl Ctx {
         }
     }
 
-    fn judge_bfd(&mut self, input: &[u8], origin: &str) {
+    fn judge_bfd(&mut self, input: &[u8], origin: &dyn Fn() -> String) {
         self.beat(input);
         let tr = drive::run_bfd(input);
         self.after_simple(&tr, "bfd", input, origin, &[]);
     }
 
-    fn after_simple(&mut self, tr: &Trace, decoder: &'static str, input: &[u8], origin: &str, cuts: &[usize]) {
+    fn after_simple(&mut self, tr: &Trace, decoder: &'static str, input: &[u8], origin: &dyn Fn() -> String, cuts: &[usize]) {
         self.rep.eval();
         self.absorb(tr, decoder, 0, origin, input, cuts);
         if tr.deep {
-            let mut key = input.to_vec();
-            key.extend_from_slice(decoder.as_bytes());
-            self.rep.nontrivial(fnv64(&key));
+            self.rep.nontrivial(fnv64(input) ^ mix(fnv64(decoder.as_bytes())));
             self.rep.count(if decoder == "rtr" { "nontrivial:rtr" } else { "nontrivial:bfd" });
         }
     }
@@ -239,11 +235,12 @@ fn phase_baseline(ctx: &mut Ctx, sparse: bool) {
         }
         let s = ctx.corpus.seeds[si].clone();
         let frags = ctx.frags_for(s.bytes.len(), true);
-        let origin = format!("seed {} (unmutated)", s.name);
+        let oname = s.name.clone();
+        let origin = move || format!("seed {} (unmutated)", oname);
         match s.proto {
             Proto::Bgp => {
-                let spec = ctx.corpus.specs[s.home].clone();
-                let tr = drive::run_bgp(&spec, &mut ctx.codecs[s.home], &s.bytes, &[], true);
+                let max_len = ctx.corpus.specs[s.home].max_len();
+                let tr = drive::run_bgp(max_len, &mut ctx.codecs[s.home], &s.bytes, &[], true);
                 let ok = tr.findings.is_empty() && !tr.msgs.is_empty() && tr.term == (Term::NeedMore { residual: 0 });
                 ctx.rep.count(if ok { "baseline:accepted" } else { "baseline:not-accepted" });
                 ctx.rep.count(if s.from_encoder { "seed:from-encoder" } else { "seed:from-template" });
@@ -271,9 +268,9 @@ fn phase_baseline(ctx: &mut Ctx, sparse: bool) {
     ctx.rep.extra("baseline_not_accepted", Json::strs(rejected));
 }
 
-fn alt_codec(ctx: &Ctx, s: &Seed, h: u64) -> usize {
+fn alt_codec(ctx: &Ctx, si: usize, h: u64) -> usize {
     let n = ctx.corpus.specs.len();
-    if let Some(f) = s.family {
+    if let Some(f) = ctx.corpus.seeds[si].family {
         if h % 4 != 0 {
             // a codec that negotiated the family (different add-path / AS width / sizes)
             let with: Vec<usize> = (0..n).filter(|i| ctx.corpus.specs[*i].has(f)).collect();
@@ -290,8 +287,8 @@ fn alt_codec(ctx: &Ctx, s: &Seed, h: u64) -> usize {
 /// value sweeps are sampled, differently for every VERIF_SEED.
 fn quick_rate_ppm(label: &str) -> u64 {
     match label {
-        "type-sweep" | "region-lead-sweep" => 100_000,
-        "len-pair" | "region-boundary" | "region-window" => 500_000,
+        "mut:type-sweep" | "mut:region-lead-sweep" => 50_000,
+        "mut:len-pair" | "mut:region-boundary" | "mut:region-window" => 250_000,
         _ => 1_000_000,
     }
 }
@@ -308,7 +305,7 @@ fn phase_bgp_systematic(ctx: &mut Ctx, sweep_rate: f64, sample: Option<u64>) {
         total += mutate::count(&ctx.layouts[si]) as u64;
     }
     prefix.push(total);
-    ctx.rep.count_n("space:bgp-systematic-total", total);
+    ctx.rep.max("space:bgp-systematic-total", total);
     let order_seed = (ctx.rep.params.seed / 1000).wrapping_mul(0x1234_5678_9abc_def1);
     let complete = sweep_rate >= 1.0;
     let mut done = 0u64;
@@ -345,15 +342,16 @@ fn phase_bgp_systematic(ctx: &mut Ctx, sweep_rate: f64, sample: Option<u64>) {
             finished = false;
             break;
         }
-        let s = ctx.corpus.seeds[si].clone();
-        let bytes = mutate::apply(&s.bytes, &ctx.layouts[si], &m);
-        ctx.rep.count(&format!("mut:{}", label));
-        let origin = format!("seed {} + {} {:?}", s.name, label, m);
+        let bytes = mutate::apply(&ctx.corpus.seeds[si].bytes, &ctx.layouts[si], &m);
+        let home = ctx.corpus.seeds[si].home;
+        ctx.rep.count(label);
+        let sname: &str = &ctx.corpus.seeds[si].name.clone();
+        let origin = || format!("seed {} + {} {:?}", sname, label, m);
         let h = mix(g ^ 0xC03);
         let frags = ctx.frags_for(bytes.len(), h % 8 == 0);
-        ctx.judge_bgp(&bytes, s.home, &origin, &frags);
-        let alt = alt_codec(ctx, &s, h);
-        if alt != s.home {
+        ctx.judge_bgp(&bytes, home, &origin, &frags);
+        let alt = alt_codec(ctx, si, h);
+        if alt != home {
             ctx.judge_bgp(&bytes, alt, &origin, &[]);
         }
         done += 1;
@@ -595,7 +593,7 @@ fn phase_bgp_random(ctx: &mut Ctx, n: u64) {
             (v, c, "random bytes".to_string())
         };
         let frags = ctx.frags_for(bytes.len(), j % 16 == 0);
-        ctx.judge_bgp(&bytes, codec, &origin, &frags);
+        ctx.judge_bgp(&bytes, codec, &|| origin.clone(), &frags);
         done += 1;
     }
     ctx.rep.count_n("inputs:bgp-random", done);
@@ -628,14 +626,17 @@ fn phase_rtr(ctx: &mut Ctx, keep_num: u64, keep_den: u64, random_n: u64) {
     let rtr: Vec<Seed> = ctx.corpus.seeds.iter().filter(|s| s.proto == Proto::Rtr).cloned().collect();
     let follow = seeds::rtr_pdu(1, 8, 0, &[]); // a valid Cache Reset following the mutated PDU
     let mut inputs: u64 = 0;
-    let mut emit = |ctx: &mut Ctx, bytes: Vec<u8>, label: &'static str, origin: String, bytewise: bool| {
+    let mut emit = |ctx: &mut Ctx, bytes: Vec<u8>, label: &'static str, origin: &dyn Fn() -> String, bytewise: bool| {
         let j = ctx.item;
         if !ctx.mine() || mix(j ^ 0x517) % keep_den >= keep_num {
             return;
         }
-        ctx.rep.count(&format!("mut-rtr:{}", label));
+        if !ctx.rep.in_budget() {
+            return;
+        }
+        ctx.rep.count(label);
         let frags = ctx.frags_for(bytes.len(), bytewise);
-        ctx.judge_rtr(&bytes, &origin, &frags);
+        ctx.judge_rtr(&bytes, origin, &frags);
         inputs += 1;
     };
     for s in &rtr {
@@ -650,34 +651,34 @@ fn phase_rtr(ctx: &mut Ctx, keep_num: u64, keep_den: u64, random_n: u64) {
         for lv in rtr_len_values(v, s.bytes.len()) {
             let mut b = s.bytes.clone();
             b[4..8].copy_from_slice(&lv.to_be_bytes());
-            emit(ctx, b.clone(), "length", format!("seed {} length:={}", s.name, lv), true);
+            emit(ctx, b.clone(), "mut-rtr:length", &|| format!("seed {} length:={}", s.name, lv), true);
             let mut c = b.clone();
             c.extend_from_slice(&follow);
-            emit(ctx, c, "length+next-pdu", format!("seed {} length:={} + cache-reset", s.name, lv), true);
+            emit(ctx, c, "mut-rtr:length+next-pdu", &|| format!("seed {} length:={} + cache-reset", s.name, lv), true);
             if (lv as usize) > b.len() && lv <= 5000 {
                 let mut d = b.clone();
                 d.resize(lv as usize, 0);
-                emit(ctx, d, "length+padded", format!("seed {} length:={} padded", s.name, lv), false);
+                emit(ctx, d, "mut-rtr:length+padded", &|| format!("seed {} length:={} padded", s.name, lv), false);
             }
         }
         // 2. type byte and version byte sweeps (incl. 9, 11..255), alone and followed by a valid PDU
         for t in 0..=255u8 {
             let mut b = s.bytes.clone();
             b[1] = t;
-            emit(ctx, b.clone(), "type-sweep", format!("seed {} type:={}", s.name, t), false);
+            emit(ctx, b.clone(), "mut-rtr:type-sweep", &|| format!("seed {} type:={}", s.name, t), false);
             b.extend_from_slice(&follow);
-            emit(ctx, b, "type-sweep+next-pdu", format!("seed {} type:={} + cache-reset", s.name, t), false);
+            emit(ctx, b, "mut-rtr:type-sweep+next-pdu", &|| format!("seed {} type:={} + cache-reset", s.name, t), false);
             let mut c = s.bytes.clone();
             c[0] = t;
-            emit(ctx, c, "version-sweep", format!("seed {} version:={}", s.name, t), false);
+            emit(ctx, c, "mut-rtr:version-sweep", &|| format!("seed {} version:={}", s.name, t), false);
         }
         // 3. truncation at every offset, with and without the length field following
         for at in 0..s.bytes.len() {
-            emit(ctx, s.bytes[..at].to_vec(), "truncate", format!("seed {} truncated at {}", s.name, at), true);
+            emit(ctx, s.bytes[..at].to_vec(), "mut-rtr:truncate", &|| format!("seed {} truncated at {}", s.name, at), true);
             if at >= 8 {
                 let mut b = s.bytes[..at].to_vec();
                 b[4..8].copy_from_slice(&(at as u32).to_be_bytes());
-                emit(ctx, b, "truncate+fix-length", format!("seed {} truncated at {} length fixed", s.name, at), true);
+                emit(ctx, b, "mut-rtr:truncate+fix-length", &|| format!("seed {} truncated at {} length fixed", s.name, at), true);
             }
         }
         // 4. boundary values in every body byte
@@ -685,7 +686,7 @@ fn phase_rtr(ctx: &mut Ctx, keep_num: u64, keep_den: u64, random_n: u64) {
             for val in [0u8, 1, 0x20, 0x21, 0x7f, 0x80, 0x81, 0xff] {
                 let mut b = s.bytes.clone();
                 b[off] = val;
-                emit(ctx, b, "body-byte", format!("seed {} byte {}:={}", s.name, off, val), false);
+                emit(ctx, b, "mut-rtr:body-byte", &|| format!("seed {} byte {}:={}", s.name, off, val), false);
             }
         }
         // 5. pairs of disagreeing lengths: type t with the fixed size of type u
@@ -693,9 +694,9 @@ fn phase_rtr(ctx: &mut Ctx, keep_num: u64, keep_den: u64, random_n: u64) {
             if u.bytes.len() >= 8 && u.bytes.len() != s.bytes.len() && u.bytes.len() <= 64 {
                 let mut b = s.bytes.clone();
                 b[1] = u.bytes[1];
-                emit(ctx, b.clone(), "type-of-other-size", format!("seed {} with type of {}", s.name, u.name), true);
+                emit(ctx, b.clone(), "mut-rtr:type-of-other-size", &|| format!("seed {} with type of {}", s.name, u.name), true);
                 b.extend_from_slice(&u.bytes);
-                emit(ctx, b, "stream-pair", format!("seed {} (type of {}) + {}", s.name, u.name, u.name), true);
+                emit(ctx, b, "mut-rtr:stream-pair", &|| format!("seed {} (type of {}) + {}", s.name, u.name, u.name), true);
             }
         }
     }
@@ -740,7 +741,7 @@ fn phase_rtr(ctx: &mut Ctx, keep_num: u64, keep_den: u64, random_n: u64) {
         };
         ctx.rep.count("mut-rtr:random");
         let frags = ctx.frags_for(bytes.len(), j % 4 == 0);
-        ctx.judge_rtr(&bytes, "random RTR input", &frags);
+        ctx.judge_rtr(&bytes, &|| "random RTR input".to_string(), &frags);
         inputs += 1;
     }
     ctx.rep.count_n("inputs:rtr", inputs);
@@ -749,13 +750,16 @@ fn phase_rtr(ctx: &mut Ctx, keep_num: u64, keep_den: u64, random_n: u64) {
 fn phase_bfd(ctx: &mut Ctx, keep_num: u64, keep_den: u64, random_n: u64) {
     let bfd: Vec<Seed> = ctx.corpus.seeds.iter().filter(|s| s.proto == Proto::Bfd).cloned().collect();
     let mut inputs = 0u64;
-    let mut emit = |ctx: &mut Ctx, bytes: Vec<u8>, label: &'static str, origin: String| {
+    let mut emit = |ctx: &mut Ctx, bytes: Vec<u8>, label: &'static str, origin: &dyn Fn() -> String| {
         let j = ctx.item;
         if !ctx.mine() || mix(j ^ 0xbfd) % keep_den >= keep_num {
             return;
         }
-        ctx.rep.count(&format!("mut-bfd:{}", label));
-        ctx.judge_bfd(&bytes, &origin);
+        if !ctx.rep.in_budget() {
+            return;
+        }
+        ctx.rep.count(label);
+        ctx.judge_bfd(&bytes, origin);
         inputs += 1;
     };
     for s in &bfd {
@@ -763,37 +767,37 @@ fn phase_bfd(ctx: &mut Ctx, keep_num: u64, keep_den: u64, random_n: u64) {
             for off in 0..4usize {
                 let mut b = s.bytes.clone();
                 b[off] = v;
-                emit(ctx, b.clone(), if off == 3 { "length" } else { "header-byte-sweep" }, format!("seed {} byte {}:={}", s.name, off, v));
+                emit(ctx, b.clone(), if off == 3 { "mut-bfd:length" } else { "mut-bfd:header-byte-sweep" }, &|| format!("seed {} byte {}:={}", s.name, off, v));
                 if off == 3 {
                     // the buffer really has that many bytes
                     b.resize(v as usize, 0x41);
                     if b.len() > 3 {
                         b[3] = v;
                     }
-                    emit(ctx, b, "length+resized", format!("seed {} length:={} resized", s.name, v));
+                    emit(ctx, b, "mut-bfd:length+resized", &|| format!("seed {} length:={} resized", s.name, v));
                 }
             }
         }
         for at in 0..=s.bytes.len() {
-            emit(ctx, s.bytes[..at].to_vec(), "truncate", format!("seed {} truncated at {}", s.name, at));
+            emit(ctx, s.bytes[..at].to_vec(), "mut-bfd:truncate", &|| format!("seed {} truncated at {}", s.name, at));
             let mut b = s.bytes[..at].to_vec();
             if b.len() > 3 {
                 b[3] = at as u8;
             }
-            emit(ctx, b, "truncate+fix-length", format!("seed {} truncated at {} length fixed", s.name, at));
+            emit(ctx, b, "mut-bfd:truncate+fix-length", &|| format!("seed {} truncated at {} length fixed", s.name, at));
         }
         for extra in [1usize, 2, 8, 200, 231, 232, 1000] {
             let mut b = s.bytes.clone();
             b.resize(s.bytes.len() + extra, 0);
-            emit(ctx, b.clone(), "extend", format!("seed {} + {} bytes", s.name, extra));
+            emit(ctx, b.clone(), "mut-bfd:extend", &|| format!("seed {} + {} bytes", s.name, extra));
             b[3] = b.len() as u8;
-            emit(ctx, b, "extend+fix-length", format!("seed {} + {} bytes length fixed", s.name, extra));
+            emit(ctx, b, "mut-bfd:extend+fix-length", &|| format!("seed {} + {} bytes length fixed", s.name, extra));
         }
         for off in 4..s.bytes.len() {
             for val in [0u8, 1, 0x7f, 0x80, 0xff] {
                 let mut b = s.bytes.clone();
                 b[off] = val;
-                emit(ctx, b, "body-byte", format!("seed {} byte {}:={}", s.name, off, val));
+                emit(ctx, b, "mut-bfd:body-byte", &|| format!("seed {} byte {}:={}", s.name, off, val));
             }
         }
     }
@@ -818,7 +822,7 @@ fn phase_bfd(ctx: &mut Ctx, keep_num: u64, keep_den: u64, random_n: u64) {
             v
         };
         ctx.rep.count("mut-bfd:random");
-        ctx.judge_bfd(&bytes, "random BFD input");
+        ctx.judge_bfd(&bytes, &|| "random BFD input".to_string());
         inputs += 1;
     }
     ctx.rep.count_n("inputs:bfd", inputs);
@@ -831,12 +835,12 @@ fn reproduces(ctx: &mut Ctx, decoder: &str, codec: usize, bytes: &[u8], sig: &st
         "bgp" => {
             let spec = ctx.corpus.specs[codec].clone();
             let mut c = spec.build();
-            let a = drive::run_bgp(&spec, &mut c, bytes, &[], true);
+            let a = drive::run_bgp(spec.max_len(), &mut c, bytes, &[], true);
             if a.findings.iter().any(|f| f.sig == sig) {
                 return true;
             }
             let mut c = spec.build();
-            drive::run_bgp(&spec, &mut c, bytes, &[], false)
+            drive::run_bgp(spec.max_len(), &mut c, bytes, &[], false)
         }
         "rtr" => drive::run_rtr(bytes, &[]),
         _ => drive::run_bfd(bytes),
@@ -947,9 +951,9 @@ fn replay(ctx: &mut Ctx, decoder: &str, codec_name: &str, input: &[u8], cuts: &[
     let codec = ctx.corpus.specs.iter().position(|s| s.name == codec_name).unwrap_or(0);
     let frags: Vec<Vec<usize>> = if cuts.is_empty() { vec![] } else { vec![cuts.to_vec()] };
     match decoder {
-        "bgp" => ctx.judge_bgp(input, codec, "replay", &frags),
-        "rtr" => ctx.judge_rtr(input, "replay", &frags),
-        _ => ctx.judge_bfd(input, "replay"),
+        "bgp" => ctx.judge_bgp(input, codec, &|| "replay".to_string(), &frags),
+        "rtr" => ctx.judge_rtr(input, &|| "replay".to_string(), &frags),
+        _ => ctx.judge_bfd(input, &|| "replay".to_string()),
     }
     ctx.rep.count("replayed");
 }
@@ -978,8 +982,8 @@ fn main() {
     let codecs: Vec<PeerCodec> = corpus.specs.iter().map(|s| s.build()).collect();
     let shard_idx = params.shard.rsplit('-').next().and_then(|s| s.parse::<u64>().ok()).unwrap_or(0);
     let nshards = params.get_u64("nshards", 1).max(1);
-    rep.count_n("codecs", corpus.specs.len() as u64);
-    rep.count_n("seeds", corpus.seeds.len() as u64);
+    rep.max("codecs", corpus.specs.len() as u64);
+    rep.max("seeds", corpus.seeds.len() as u64);
     let mut ctx = Ctx {
         rep,
         corpus,
@@ -1038,28 +1042,31 @@ fn main() {
         std::process::exit(ctx.rep.finish());
     }
 
-    let part = params.get("part").unwrap_or("all").to_string();
+    let part_s = params.get("part").unwrap_or("all").to_string();
+    let has = |p: &str| part_s.split(',').any(|x| x == p || x == "all" || (x == "bgp" && p.starts_with("bgp-")));
     let tiny = params.scale < 0.01;
     let thorough = params.thorough();
     phase_baseline(&mut ctx, tiny);
-    if part == "all" || part == "bgp" || part == "bgp-systematic" {
-        // quick: structured classes complete + 10 % of the 256-value sweeps; thorough: everything
+    if has("bgp-systematic") {
+        // thorough (scale 1): the whole space.  quick: length fields / truncation / attribute surgery
+        // complete, wide value sweeps sampled.  tiny scale (Miri): a seeded sample of indices.
         if tiny {
             phase_bgp_systematic(&mut ctx, 1.0, Some(params.n(1_000_000, 4_000_000)));
         } else {
-            phase_bgp_systematic(&mut ctx, if thorough { 1.0 } else { 0.1 * params.scale.min(1.0) }, None);
+            let rate = if thorough { 1.0 } else { 0.1 } * params.scale.min(1.0);
+            phase_bgp_systematic(&mut ctx, rate, None);
         }
     }
-    if part == "all" || part == "bgp" || part == "bgp-random" {
+    if has("bgp-random") {
         let per_shard = params.n(200_000, 40_000_000) / nshards;
         phase_bgp_random(&mut ctx, per_shard.max(1));
     }
     // RTR / BFD systematic spaces are small: visited completely unless scaled down
     let (num, den) = if params.scale >= 1.0 { (1, 1) } else { (((params.scale * 1000.0).ceil() as u64).max(1), 1000) };
-    if part == "all" || part == "rtr" {
+    if has("rtr") {
         phase_rtr(&mut ctx, num, den, params.n(40_000, 4_000_000) / nshards);
     }
-    if part == "all" || part == "bfd" {
+    if has("bfd") {
         phase_bfd(&mut ctx, num, den, params.n(20_000, 2_000_000) / nshards);
     }
     finalize(&mut ctx);
